@@ -34,15 +34,24 @@ fn exercise(cx: &mut Ctx, id: u64, inst: &dyn Inst, blocks: &[(String, Vec<u8>)]
         }
     }
     if batch {
+        // lane contents are a prefix of one per-instance stream, so builds whose backends have different
+        // parallel widths still observe common (key, block) points (cross-configuration merge, C03)
+        let lane_seed = rng.next();
         for dir in [Dir::Enc, Dir::Dec] {
             let par = match dir {
                 Dir::Enc => inst.par_e(),
                 Dir::Dec => inst.par_d(),
             };
             if let Some(par) = par {
-                let n = par + 1 + rng.below(2);
-                let data = rng.bytes(n * bs);
-                cx.many(id, inst, dir, shape_of(rng.below(3)), &data, rng.below(16), rng.below(16), None);
+                let mut lr = Rng::new(lane_seed);
+                let n = par + 1 + (lane_seed % 2) as usize;
+                let data = lr.bytes(n * bs);
+                // every lane input is also observed through the single-block entry point
+                for b in data.chunks(bs) {
+                    cx.one(id, inst, dir, Shape::B2b, b);
+                }
+                let (oi, oo) = ((lane_seed >> 8) as usize % 16, (lane_seed >> 16) as usize % 16);
+                cx.many(id, inst, dir, shape_of((lane_seed >> 24) as usize), &data, oi, oo, None);
             }
         }
     }
